@@ -46,7 +46,7 @@ def run(model: Model, rep: Report, tier: str) -> None:
         "does not decide numeric values."
     )
     rep.trusted_base = ["denotation of Probability leaves is the definition", "Python sorted() returns a permutation", "tuple/frozenset semantics"]
-    rep.floors = {"R13.1": 40, "R13.2": 6, "R13.3": 4, "R13.4": 4, "R13.5": 10}
+    rep.floors = {"R13.1": 40, "R13.2": 6, "R13.3": 4, "R13.4": 4, "R13.5": 10, "R13.6": 6}
     classes = concrete_expression_classes(model)
     if len(classes) < 8:
         raise AnalysisError(f"expected >= 8 concrete Expression subclasses, found {[c.name for c in classes]}")
@@ -56,6 +56,7 @@ def run(model: Model, rep: Report, tier: str) -> None:
     r13_3(model, rep)
     r13_4(model, rep, classes)
     r13_5(model, rep)
+    r13_6(model, rep, classes)
 
 
 # ------------------------------------------------------------------------------------------- R13.1
@@ -779,3 +780,39 @@ def _bound_rules(model: Model, rep: Report, f) -> None:
                     "W @ -x is not removed by subtracting W but has base W, so Sum[W](P[X](W) * ...).conditional(...) sums W a second time", loc(f))
     else:
         rep.unknown("R13.4", c2, "cannot tell whether the subtraction acts on base variables: " + short(show(A), 160), loc(f), required=False)
+
+
+# ------------------------------------------------------------------------------------------- R13.6
+def r13_6(model: Model, rep: Report, classes) -> None:
+    """Ordering keys of the DSL (E11): total, path-independent component types; compared fields read as they are."""
+    from ..keys import check_key_function
+
+    VARIABLE = ("cls", f"{DSL}.Variable")
+    funcs = []
+    for name, ptypes in (("_variable_sort_key", {"variable": VARIABLE}), ("_variable_key", {"variable": VARIABLE}),
+                         ("_distribution_key", {"distribution": ("cls", f"{DSL}.Distribution")})):
+        q = f"{DSL}.{name}"
+        if q in model.functions:
+            funcs.append((model.functions[q], None, ptypes, name))
+    seen = set()
+    for K in classes:
+        m = K.find_method("_get_key")
+        if m is not None and m.qname not in seen:
+            seen.add(m.qname)
+            funcs.append((m, ("cls", K.qname), None, f"{K.name}._get_key"))
+    for cq in (f"{DSL}.Variable", f"{DSL}.Intervention", f"{DSL}.CounterfactualVariable"):
+        if cq in model.classes:
+            m = model.classes[cq].methods.get("__lt__")
+            if m is not None:
+                funcs.append((m, ("cls", cq), {m.params[1]: ("cls", cq)} if len(m.params) > 1 else None, f"{cq.split('.')[-1]}.__lt__"))
+    for f, st, pt, label in funcs:
+        cons = construct(f, "key-discipline")
+        try:
+            problems, n, sample = check_key_function(model, f, st, pt)
+        except Exception as e:  # noqa: BLE001
+            rep.unknown("R13.6", cons, f"the key could not be evaluated ({type(e).__name__})", loc(f), required=False)
+            continue
+        if problems:
+            rep.refuted("R13.6", cons, f"{label}: " + "; ".join(problems[:3]), loc(f), sample=sample)
+        else:
+            rep.proven("R13.6", cons, loc=loc(f), sample=sample, nontrivial=n > 0)
